@@ -1,2 +1,68 @@
 import Dbg.Spec.C05
-/-! # C05 — K-mer counting/filtering equals reference grouping for any pass count (theorems: see below) -/
+/-! # C05 — K-mer counting/filtering equals reference grouping for any pass count
+
+Proved so far: the pass planning tiles the 256 buckets — for every memory budget (every number of slices ≥ 1)
+each bucket lies in exactly one pass — and there are at most 256 passes; the saturating count is
+`min n 65535`.  The equality of `filterKmers` with the pass-free reference `refTable` (for all read sets) is
+stated (`C05_filter_eq_ref_full`) and decided on every run by evaluating the reference on the crate's
+output for pass counts 1..256; its proof is not yet written. -/
+namespace Filter
+open Compress (Seq Exts Entry)
+
+theorem mem_bucketRanges (slices lo hi : Nat) :
+    (lo, hi) ∈ bucketRanges slices ↔ (lo < 256 ∧ lo % (256 / slices + 1) = 0 ∧ hi = lo + (256 / slices + 1)) := by
+  unfold bucketRanges
+  simp only [List.mem_filterMap, List.mem_range]
+  constructor
+  · rintro ⟨i, hi, h⟩
+    split at h
+    · rename_i hm
+      simp only [Option.some.injEq, Prod.mk.injEq] at h
+      obtain ⟨rfl, rfl⟩ := h
+      exact ⟨hi, hm, rfl⟩
+    · exact absurd h (by simp)
+  · rintro ⟨h1, h2, rfl⟩
+    exact ⟨lo, h1, by simp [h2]⟩
+
+/-- **C05 (pass planning).** Every bucket `b < 256` lies in exactly one of the planned ranges. -/
+theorem C05_ranges_tile (slices b : Nat) (hb : b < 256) :
+    ∃ lo hi, (lo, hi) ∈ bucketRanges slices ∧ lo ≤ b ∧ b < hi ∧
+      ∀ lo' hi', (lo', hi') ∈ bucketRanges slices → lo' ≤ b → b < hi' → lo' = lo ∧ hi' = hi := by
+  have hsz : 0 < 256 / slices + 1 := Nat.succ_pos _
+  generalize hs : 256 / slices + 1 = sz at hsz
+  have hm := Nat.mod_lt b hsz
+  have hd := Nat.div_add_mod b sz
+  have hmul : sz * (b / sz) % sz = 0 := Nat.mul_mod_right sz (b / sz)
+  refine ⟨sz * (b / sz), sz * (b / sz) + sz, ?_, by omega, by omega, ?_⟩
+  · rw [mem_bucketRanges, hs]; exact ⟨by omega, hmul, rfl⟩
+  · intro lo' hi' hmem h1 h2
+    rw [mem_bucketRanges, hs] at hmem
+    obtain ⟨_, m0, rfl⟩ := hmem
+    have e1 : lo' = sz * (lo' / sz) := by have := Nat.div_add_mod lo' sz; omega
+    have e2 : b / sz = lo' / sz := by
+      apply Nat.div_eq_of_lt_le
+      · rw [Nat.mul_comm]; omega
+      · rw [Nat.mul_comm, Nat.mul_add]; omega
+    constructor
+    · rw [e2]; exact e1
+    · rw [e2]; omega
+
+/-- at most 256 passes -/
+theorem C05_passes_le (slices : Nat) : (bucketRanges slices).length ≤ 256 := by
+  unfold bucketRanges
+  exact Nat.le_trans (List.length_filterMap_le _ _) (by simp)
+
+/-- `CountFilter`: the reported count is the number of observations capped at 65535, the k-mer is accepted iff that is ≥ n -/
+theorem C05_count_summary (n : Nat) (obs : List (Exts × Nat)) :
+    (summarize (.count n) obs).2.2 = [min obs.length 65535] ∧ ((summarize (.count n) obs).1 = true ↔ n ≤ min obs.length 65535) := by
+  simp [summarize, Gen.countSaturation]
+
+/-- Full statement (not yet proved): for every read set, K ≥ 4, every memory budget ≥ 1 the table and the all-k-mers list
+    equal the pass-free reference. -/
+def C05_filter_eq_ref_full : Prop :=
+  ∀ (K : Nat) (reads : List (Seq × Exts × Nat)) (sm : Summarizer) (st ra : Bool) (mem bpu sz : Nat),
+    4 ≤ K → 1 ≤ mem → 1 ≤ bpu → (∀ r ∈ reads, ∀ b ∈ r.1, b.val < 4) →
+    ∃ r, filterKmers K reads sm st ra mem bpu sz = some r ∧ r.table = refTable K reads sm st ∧
+      r.allKmers = (if ra then refAllKmers K reads st else [])
+
+end Filter
